@@ -11,6 +11,7 @@ CONSTANTS
   WfcBudget = 2
   Ev2Set = {}
   MaxSilent = 8
+VIEW tview
 CONSTRAINT Furthest
 POSTCONDITION Post
 CHECK_DEADLOCK FALSE
